@@ -93,6 +93,89 @@ pub fn child_main() -> ! {
     }
 }
 
+/// Checks `tip:` lines of a rendered error against the command tree.
+fn suggestion_names_nothing(spec: &CmdSpec, rendered: &str) -> Option<String> {
+    fn longs(c: &CmdSpec, inherited: &[String]) -> Vec<String> {
+        let mut v: Vec<String> = inherited.to_vec();
+        for a in &c.args {
+            if let Some(l) = &a.long {
+                v.push(l.clone());
+            }
+            v.extend(a.aliases.iter().cloned());
+            v.extend(a.visible_aliases.iter().cloned());
+        }
+        for s in &c.subs {
+            if let Some(l) = &s.long_flag {
+                v.push(l.clone());
+            }
+            v.extend(s.long_flag_aliases.iter().cloned());
+            v.extend(s.visible_long_flag_aliases.iter().cloned());
+        }
+        v.push("help".into());
+        v.push("version".into());
+        if c.defer != 0 {
+            v.push("deferred-flag".into());
+            v.push("deferred-opt".into());
+        }
+        v
+    }
+    fn find_sub<'a>(c: &'a CmdSpec, name: &str, inherited: &mut Vec<String>) -> Vec<(&'a CmdSpec, Vec<String>)> {
+        let mut out = Vec::new();
+        let mut inh = inherited.clone();
+        for a in c.args.iter().filter(|a| a.global) {
+            if let Some(l) = &a.long {
+                inh.push(l.clone());
+            }
+            inh.extend(a.aliases.iter().cloned());
+            inh.extend(a.visible_aliases.iter().cloned());
+        }
+        for s in &c.subs {
+            if s.all_names().iter().any(|n| n == name) {
+                out.push((s, inh.clone()));
+            }
+            out.extend(find_sub(s, name, &mut inh.clone()));
+        }
+        out
+    }
+    for line in rendered.lines() {
+        let l = line.trim();
+        let Some(t) = l.strip_prefix("tip: ") else { continue };
+        // "'<sub> --<flag>' exists"
+        if let Some(rest) = t.strip_suffix("' exists").and_then(|x| x.strip_prefix('\'')) {
+            if let Some((sub, flag)) = rest.rsplit_once(" --") {
+                let cands = find_sub(spec, sub, &mut Vec::new());
+                if cands.is_empty() && sub != "help" {
+                    return Some(format!("the tip names subcommand `{sub}` which does not exist"));
+                }
+                if !cands.is_empty() && !cands.iter().any(|(c, inh)| longs(c, inh).iter().any(|x| x == flag)) {
+                    return Some(format!("the tip says `{sub} --{flag}` exists but no subcommand `{sub}` has a flag --{flag}"));
+                }
+            }
+        }
+        // "a similar argument exists: '--flag'"
+        if let Some(rest) = t.strip_prefix("a similar argument exists: '") {
+            let name = rest.trim_end_matches('\'');
+            if let Some(flag) = name.strip_prefix("--") {
+                let mut all = Vec::new();
+                spec.walk(&mut |c, _| all.extend(longs(c, &[])), 0);
+                if !all.iter().any(|x| x == flag) {
+                    return Some(format!("the tip names --{flag} which exists nowhere in the tree"));
+                }
+            }
+        }
+        // "a similar subcommand exists: 'name'"
+        if let Some(rest) = t.strip_prefix("a similar subcommand exists: '") {
+            let name = rest.trim_end_matches('\'');
+            let mut all = vec!["help".to_string()];
+            spec.walk(&mut |c, _| all.extend(c.all_names()), 0);
+            if !all.iter().any(|x| x == name) {
+                return Some(format!("the tip names subcommand `{name}` which exists nowhere in the tree"));
+            }
+        }
+    }
+    None
+}
+
 struct ChildResult {
     code: Option<i32>,
     signal: Option<i32>,
@@ -273,7 +356,13 @@ fn exec_proc(sc: &ProcSc, log: &mut Log, out: &mut Outcome) {
             return;
         }
         (_, POut::Ok { .. }) => (0, false, false, "Ok".into()),
-        (_, POut::Err { kind, use_stderr, exit_code, .. }) => {
+        (_, POut::Err { kind, use_stderr, exit_code, rendered }) => {
+            // workload-only rider: a `tip:` never names something that does not exist
+            out.comparisons += 1;
+            if let Some(d) = suggestion_names_nothing(&sc.spec, rendered) {
+                out.violate("suggestion-names-nonexistent", format!("{kind:?}"), format!("argv {:?}: {d}\n{rendered}", sc.argv));
+                return;
+            }
             // in-process rider: stream and exit code are functions of the kind
             let help_like = matches!(kind, ErrorKind::DisplayHelp | ErrorKind::DisplayVersion);
             out.comparisons += 1;
